@@ -58,6 +58,8 @@ Section JsonInd.
 End JsonInd.
 
 (* ---- basics ---- *)
+Ltac norm_app := repeat first [rewrite <- app_assoc | progress (cbn [app])].
+
 Lemma fbind_ok : forall A B (a : A) (f : A -> fres B), fbind (FOk a) f = f a.
 Proof. reflexivity. Qed.
 
@@ -236,6 +238,14 @@ Proof.
   intros top es. reflexivity.
 Qed.
 
+Lemma toks_elems_cons2 : forall v v2 es,
+  toks_elems (v :: v2 :: es) = toks_json false v ++ JComma :: toks_elems (v2 :: es).
+Proof. reflexivity. Qed.
+
+Lemma toks_pairs_cons2 : forall k v kv2 fs,
+  toks_pairs ((k, v) :: kv2 :: fs) = JString k :: JColon :: toks_json false v ++ JComma :: toks_pairs (kv2 :: fs).
+Proof. reflexivity. Qed.
+
 Definition json_keys (l : list (name * json)) : list name := map fst l.
 
 Fixpoint json_all_ok (l : list json) : bool :=
@@ -251,15 +261,13 @@ Fixpoint json_fields_ok (l : list (name * json)) : bool :=
 Lemma json_ok_obj : forall fs,
   json_ok (JObj fs) = negb (has_dup (json_keys fs)) && json_fields_ok fs.
 Proof.
-  intros fs. cbn [json_ok]. f_equal.
-  - f_equal. f_equal. induction fs as [|[k v] r IH]; [reflexivity|]. cbn [json_keys map fst]. f_equal. exact IH.
-  - induction fs as [|[k v] r IH]; [reflexivity|]. cbn [json_fields_ok]. f_equal. exact IH.
+  intros fs. cbn [json_ok]. f_equal. f_equal. f_equal.
+  induction fs as [|[k v] r IH]; [reflexivity|]. cbn [json_keys map fst]. f_equal. exact IH.
 Qed.
 
 Lemma json_ok_arr : forall es, json_ok (JArr es) = json_all_ok es.
 Proof.
-  intros es. cbn [json_ok]. induction es as [|v r IH]; [reflexivity|].
-  destruct v; cbn [json_all_ok]; try (f_equal; exact IH). reflexivity.
+  intros es. reflexivity.
 Qed.
 
 (* the first token of a JSON value is not one that closes the enclosing construct *)
@@ -295,12 +303,10 @@ Proof.
   destruct es as [|v2 es].
   - cbn [toks_elems] in *. cbn [parse_json_elems].
     rewrite (Hv f (DTok JArrR :: r) Hvok) by lia. reflexivity.
-  - cbn [toks_elems] in Hf |- *. cbn [parse_json_elems].
+  - rewrite toks_elems_cons2 in Hf |- *. cbn [parse_json_elems].
     rewrite map_app, <- app_assoc. rewrite app_length in Hf. cbn [length] in Hf.
     rewrite (Hv f _ Hvok) by lia. cbn [fbind map app].
-    change (match v2 :: es with [] => [] | [v0] => toks_json false v0 | v0 :: (_ :: _) as r0 => toks_json false v0 ++ JComma :: toks_elems r0 end)
-      with (toks_elems (v2 :: es)).
-    rewrite (IH Hes ltac:(congruence) f r Hesok) by (cbn [toks_elems] in *; lia).
+    rewrite (IH Hes ltac:(congruence) f r Hesok) by lia.
     reflexivity.
 Qed.
 
@@ -316,13 +322,10 @@ Proof.
   destruct fs as [|kv2 fs].
   - cbn [toks_pairs] in *. cbn [map app parse_json_pairs]. cbn [length] in Hf.
     rewrite (Hv f (DTok JClose :: r) Hvok) by lia. reflexivity.
-  - cbn [toks_pairs] in Hf |- *. cbn [map parse_json_pairs app]. cbn [length] in Hf.
+  - rewrite toks_pairs_cons2 in Hf |- *. cbn [map parse_json_pairs app]. cbn [length] in Hf.
     rewrite map_app, <- app_assoc. rewrite app_length in Hf. cbn [length] in Hf.
     rewrite (Hv f _ Hvok) by lia. cbn [fbind map app].
-    change (match kv2 :: fs with [] => [] | [(k0, v0)] => JString k0 :: JColon :: toks_json false v0
-            | (k0, v0) :: (_ :: _) as r0 => JString k0 :: JColon :: toks_json false v0 ++ JComma :: toks_pairs r0 end)
-      with (toks_pairs (kv2 :: fs)).
-    rewrite (IH Hfs ltac:(congruence) f r Hfsok) by (cbn [toks_pairs] in *; lia).
+    rewrite (IH Hfs ltac:(congruence) f r Hfsok) by lia.
     reflexivity.
 Qed.
 
@@ -339,7 +342,7 @@ Proof.
   - assert (Hhead : exists rest, map DTok (toks_pairs ((k, v) :: fs)) = DTok (JString k) :: rest).
     { destruct fs; cbn [toks_pairs map]; eexists; reflexivity. }
     destruct Hhead as [rest Hrest].
-    cbn [parse_json_object]. rewrite Hrest. cbn [app]. rewrite Hopen. rewrite <- Hrest.
+    rewrite Hrest. cbn [app parse_json_object]. rewrite Hopen.
     change (DTok (JString k) :: rest ++ DTok JClose :: r) with ((DTok (JString k) :: rest) ++ DTok JClose :: r).
     rewrite <- Hrest.
     rewrite (parse_json_pairs_rt _ HP ltac:(congruence) f r Hok) by lia.
@@ -370,7 +373,7 @@ Proof.
       destruct Hhd as [rest' Hrest'].
       cbn [parse_json_value]. rewrite Hrest'. cbn [app].
       destruct t; try contradiction;
-        (rewrite <- (app_comm_cons rest' _ _); rewrite <- Hrest';
+        (rewrite app_comm_cons; rewrite <- Hrest';
          rewrite (parse_json_elems_rt _ IH ltac:(congruence) f r Hok) by lia; reflexivity).
 Qed.
 
@@ -433,3 +436,761 @@ Proof.
       apply andb_prop in Hok; destruct Hok as [Hvok Hesok];
       rewrite (IHes Hes Hesok); rewrite (Hv Hvok); reflexivity.
 Qed.
+
+(* ---- forests and their token streams ---- *)
+Lemma skel_tree_node : forall lex kids,
+  skel_tree (LNode lex kids) =
+  map DTok lex ++ match kids with [] => [DNL] | _ => DIndent :: skel_forest kids ++ [DDedent] end.
+Proof. intros lex kids. reflexivity. Qed.
+
+Lemma skel_forest_app : forall a b, skel_forest (a ++ b) = skel_forest a ++ skel_forest b.
+Proof. intros a b. unfold skel_forest. apply flat_map_app. Qed.
+
+Lemma skel_forest_cons : forall t f, skel_forest (t :: f) = skel_tree t ++ skel_forest f.
+Proof. reflexivity. Qed.
+
+Lemma skel_leaf : forall lex, skel_tree (leaf lex) = map DTok lex ++ [DNL].
+Proof. reflexivity. Qed.
+
+(* ---- call parameters ---- *)
+Lemma parse_param_rt : forall p f r,
+  param_ok p = true -> no_nl_head r -> length (skel_tree (forest_param p)) <= f ->
+  parse_param f (skel_tree (forest_param p) ++ r) = FOk (p, r).
+Proof.
+  intros [v|v p|s j] f r Hok Hr Hf.
+  - cbn [forest_param]. rewrite skel_leaf. cbn [map app parse_param starts_dot].
+    rewrite (nl_plus_one _ Hr). reflexivity.
+  - cbn [forest_param param_ok] in *. rewrite skel_leaf in Hf |- *.
+    rewrite app_length, map_length in Hf. cbn [length] in Hf.
+    cbn [map]. rewrite <- app_assoc. cbn [app parse_param].
+    rewrite (starts_dot_path _ _ Hok).
+    rewrite (parse_path_tail_rt (length p) p f (DNL :: r)); auto using path_ok_tail.
+    + cbn [fbind app]. rewrite (nl_plus_one _ Hr). reflexivity.
+    + split; reflexivity.
+    + unfold toks_path in Hf.
+      assert (Hl : length p <= length (flat_map toks_pelem p)).
+      { clear. induction p as [|e p IH]; [cbn; lia|]. cbn [flat_map length]. rewrite app_length.
+        destruct e; cbn [toks_pelem length]; lia. }
+      lia.
+  - cbn [forest_param param_ok lit_ok] in *.
+    destruct j as [q|b|s0|fs|es]; try discriminate.
+    rewrite skel_tree_node in Hf |- *. cbn [map app]. cbn [skel_forest flat_map] in Hf |- *.
+    rewrite skel_leaf in Hf |- *. rewrite toks_json_obj in Hf |- *.
+    cbn [map app length] in Hf. rewrite !app_length in Hf. cbn [length] in Hf.
+    rewrite map_length, app_length in Hf. cbn [length] in Hf.
+    rewrite app_nil_r. cbn [map]. rewrite map_app. rewrite <- !app_assoc. cbn [map app parse_param].
+    cbn [lit_ok] in Hok.
+    pose proof Hok as Hok'. rewrite json_ok_obj in Hok'. apply andb_prop in Hok'. destruct Hok' as [_ Hfok].
+    rewrite <- app_assoc. cbn [app].
+    rewrite (parse_json_object_rt fs PJsonOpen f).
+    + cbn [fbind]. rewrite nl_plus_one by exact I. cbn [fbind expect_dedent].
+      rewrite (json_norm_id _ Hok). reflexivity.
+    + apply Forall_forall. intros kv _. apply json_value_rt.
+    + reflexivity.
+    + exact Hfok.
+    + lia.
+Qed.
+
+Definition d_params (ps : list param) : toks := skel_forest (map forest_param ps).
+
+Lemma starts_param_params : forall p ps r, starts_param (d_params (p :: ps) ++ r) = true.
+Proof. intros [v|v p|s j] ps r; reflexivity. Qed.
+
+Lemma no_nl_params : forall p ps r, no_nl_head (d_params (p :: ps) ++ r).
+Proof. intros [v|v p|s j] ps r; exact I. Qed.
+
+Lemma parse_params_rt : forall ps f r,
+  ps <> [] -> forallb param_ok ps = true -> length (d_params ps) + 1 <= f ->
+  parse_params f (d_params ps ++ DDedent :: r) = FOk (ps, DDedent :: r).
+Proof.
+  induction ps as [|p ps IH]; intros f r Hne Hok Hf; [congruence|].
+  cbn [forallb] in Hok. apply andb_prop in Hok. destruct Hok as [Hp Hps].
+  destruct f as [|f]; [lia|].
+  unfold d_params in *. cbn [map] in *. rewrite skel_forest_cons in Hf |- *.
+  rewrite app_length in Hf. rewrite <- app_assoc. cbn [parse_params].
+  destruct ps as [|p2 ps].
+  - cbn [map skel_forest flat_map app] in *. rewrite (parse_param_rt p f) by (auto; try exact I; lia).
+    reflexivity.
+  - rewrite (parse_param_rt p f); [|exact Hp|apply (no_nl_params p2 ps)|lia].
+    cbn [fbind]. fold (d_params (p2 :: ps)). rewrite starts_param_params.
+    assert (Hlen : 2 <= length (skel_tree (forest_param p))).
+    { destruct p; cbn [forest_param]; rewrite ?skel_leaf, ?skel_tree_node; cbn [map app length];
+        rewrite ?app_length; cbn [length]; lia. }
+    unfold d_params. rewrite (IH f r); [reflexivity|congruence|exact Hps|lia].
+Qed.
+
+(* ---- call_input? call_output? ---- *)
+Definition call_tail (ins : list param) (outs : outparams) : toks :=
+  match forest_io ins outs with
+  | [] => [DNL]
+  | k => DIndent :: skel_forest k ++ [DDedent]
+  end.
+
+Lemma skel_forest_vardefs : forall ds,
+  skel_forest (map (fun d => leaf (toks_vardef d)) ds) = d_vardefs ds.
+Proof.
+  induction ds as [|d ds IH]; [reflexivity|].
+  cbn [map]. rewrite skel_forest_cons, skel_leaf, IH. reflexivity.
+Qed.
+
+Lemma d_vardefs_length : forall ds, length ds <= length (d_vardefs ds).
+Proof.
+  induction ds as [|d ds IH]; [cbn; lia|].
+  unfold d_vardefs in *. cbn [flat_map]. rewrite !app_length. cbn [length]. lia.
+Qed.
+
+Definition d_io (ins : list param) (outs : outparams) : toks :=
+  (match ins with [] => [] | _ => DTok KIn :: DIndent :: d_params ins ++ [DDedent] end)
+  ++ (match outs with [] => [] | _ => DTok KOut :: DIndent :: d_vardefs outs ++ [DDedent] end).
+
+Lemma skel_io : forall ins outs, skel_forest (forest_io ins outs) = d_io ins outs.
+Proof.
+  intros ins outs. unfold forest_io, d_io. rewrite skel_forest_app. f_equal.
+  - destruct ins as [|p ins]; [reflexivity|].
+    cbn [skel_forest flat_map]. rewrite app_nil_r. reflexivity.
+  - destruct outs as [|d outs]; [reflexivity|].
+    cbn [skel_forest flat_map]. rewrite app_nil_r. rewrite skel_tree_node.
+    rewrite skel_forest_vardefs. reflexivity.
+Qed.
+
+Lemma parse_call_body_rt : forall ins outs f r,
+  forallb param_ok ins = true ->
+  length (d_io ins outs) + 1 <= f ->
+  parse_call_body f (d_io ins outs ++ DDedent :: r) = FOk ((ins, outs), DDedent :: r).
+Proof.
+  intros ins outs f r Hok Hf. unfold parse_call_body, d_io in *.
+  destruct ins as [|p ins].
+  - cbn [app] in *. destruct outs as [|d outs].
+    + reflexivity.
+    + cbn [length] in Hf. rewrite app_length in Hf. cbn [length] in Hf.
+      cbn [app]. rewrite <- app_assoc. cbn [app fbind].
+      pose proof (d_vardefs_length (d :: outs)).
+      rewrite parse_vardef_block_rt; [reflexivity|congruence|lia].
+  - rewrite app_length in Hf. cbn [length] in Hf. rewrite app_length in Hf. cbn [length] in Hf.
+    cbn [app]. rewrite <- !app_assoc. cbn [app expect_indent fbind].
+    rewrite parse_params_rt; [|congruence|exact Hok|lia].
+    cbn [fbind expect_dedent].
+    destruct outs as [|d outs].
+    + reflexivity.
+    + cbn [length] in Hf. rewrite app_length in Hf. cbn [length] in Hf.
+      cbn [app]. rewrite <- app_assoc. cbn [app].
+      pose proof (d_vardefs_length (d :: outs)).
+      rewrite parse_vardef_block_rt; [reflexivity|congruence|lia].
+Qed.
+
+Lemma d_io_nil : forall ins outs, d_io ins outs = [] -> ins = [] /\ outs = [].
+Proof. intros [|p ins] [|d outs] H; try discriminate; split; reflexivity. Qed.
+
+Lemma call_tail_io : forall ins outs,
+  call_tail ins outs = match d_io ins outs with [] => [DNL] | k => DIndent :: k ++ [DDedent] end.
+Proof.
+  intros ins outs. unfold call_tail. rewrite <- skel_io.
+  unfold forest_io. destruct ins as [|p ins]; destruct outs as [|d outs]; reflexivity.
+Qed.
+
+Lemma call_tail_nonempty : forall ins outs,
+  ins <> [] \/ outs <> [] -> call_tail ins outs = DIndent :: d_io ins outs ++ [DDedent].
+Proof.
+  intros ins outs H. rewrite call_tail_io.
+  destruct ins as [|p ins]; destruct outs as [|d outs]; try reflexivity.
+  destruct H; congruence.
+Qed.
+
+Lemma parse_call_rest_rt : forall ins outs f r,
+  forallb param_ok ins = true -> no_nl_head r ->
+  length (call_tail ins outs) <= f ->
+  parse_call_rest f (call_tail ins outs ++ r) = FOk ((ins, outs), r).
+Proof.
+  intros ins outs f r Hok Hr Hf.
+  assert (Hcase : (ins = [] /\ outs = []) \/ (ins <> [] \/ outs <> [])).
+  { destruct ins; destruct outs; try (right; left; congruence); try (right; right; congruence). left; split; reflexivity. }
+  destruct Hcase as [[-> ->]|Hne].
+  - cbn [call_tail forest_io app parse_call_rest]. rewrite (nl_plus_one _ Hr). reflexivity.
+  - rewrite (call_tail_nonempty _ _ Hne) in *.
+    cbn [length] in Hf. rewrite app_length in Hf. cbn [length] in Hf.
+    cbn [app parse_call_rest]. rewrite <- app_assoc. cbn [app].
+    rewrite parse_call_body_rt; [reflexivity|exact Hok|lia].
+Qed.
+
+(* ---- statements ---- *)
+Lemma skel_call : forall head ins outs,
+  skel_tree (forest_call head ins outs) = DTok head :: call_tail ins outs.
+Proof.
+  intros. unfold forest_call, call_tail. rewrite skel_tree_node.
+  destruct (forest_io ins outs); reflexivity.
+Qed.
+
+Lemma forest_while : forall e body,
+  forest_stmt (SWhile e body) = [LNode (KLoop :: KWhile :: toks_expr e) (forest_stmts body)].
+Proof. reflexivity. Qed.
+
+Lemma forest_count : forall par v lim body,
+  forest_stmt (SCount par v lim body) =
+  [LNode ((if par then [KParallel] else []) ++ KLoop :: TLower v :: KTo :: toks_limit lim) (forest_stmts body)].
+Proof. reflexivity. Qed.
+
+Lemma forest_cond : forall e a b,
+  forest_stmt (SCond e a b) =
+  LNode [KCondition] [leaf (toks_expr e)] :: LNode [KPassed] (forest_stmts a)
+  :: match b with [] => [] | _ => [LNode [KFailed] (forest_stmts b)] end.
+Proof. reflexivity. Qed.
+
+Definition stmt_follow (r : toks) : Prop :=
+  match r with DNL :: _ => False | DTok KFailed :: _ => False | _ => True end.
+
+Definition layout_head (r : toks) : Prop :=
+  match r with DIndent :: _ => True | DNL :: _ => True | _ => False end.
+
+Lemma stmt_follow_no_nl : forall r, stmt_follow r -> no_nl_head r.
+Proof. intros [|[t| | | |] r] H; try exact I. contradiction. Qed.
+
+(* a non-empty forest of statements starts with a statement token *)
+Lemma forest_stmt_head : forall s, exists t rest,
+  skel_forest (forest_stmt s) = DTok t :: rest /\
+  match t with KLoop | KParallel | KCondition | TLower _ | TUpper _ => True | _ => False end.
+Proof.
+  intros [n ins outs|c|cs|e body|par v lim body|e a b].
+  - eexists; eexists; split; [reflexivity|exact I].
+  - eexists; eexists; split; [reflexivity|exact I].
+  - eexists; eexists; split; [reflexivity|exact I].
+  - eexists; eexists; split; [reflexivity|exact I].
+  - destruct par; eexists; eexists; (split; [reflexivity|exact I]).
+  - eexists; eexists; split; [reflexivity|exact I].
+Qed.
+
+Lemma stmts_head : forall s ss r, exists t rest,
+  skel_forest (forest_stmts (s :: ss)) ++ r = DTok t :: rest /\
+  match t with KLoop | KParallel | KCondition | TLower _ | TUpper _ => True | _ => False end.
+Proof.
+  intros s ss r. destruct (forest_stmt_head s) as [t [rest [H Ht]]].
+  unfold forest_stmts. cbn [flat_map]. rewrite skel_forest_app, H.
+  eexists; eexists; split; [reflexivity|exact Ht].
+Qed.
+
+Lemma stmts_starts : forall s ss r, starts_stmt (skel_forest (forest_stmts (s :: ss)) ++ r) = true.
+Proof.
+  intros s ss r. destruct (stmts_head s ss r) as [t [rest [H Ht]]]. rewrite H.
+  destruct t; try contradiction; reflexivity.
+Qed.
+
+Lemma stmts_follow : forall s ss r, stmt_follow (skel_forest (forest_stmts (s :: ss)) ++ r).
+Proof.
+  intros s ss r. destruct (stmts_head s ss r) as [t [rest [H Ht]]]. rewrite H.
+  destruct t; try contradiction; exact I.
+Qed.
+
+Lemma forest_stmt_len : forall s, 2 <= length (skel_forest (forest_stmt s)).
+Proof.
+  intros [n ins outs|c|cs|e body|par v lim body|e a b].
+  - cbn [forest_stmt skel_forest flat_map]. rewrite skel_call. rewrite app_nil_r. cbn [length].
+    unfold call_tail. destruct (forest_io ins outs); cbn [length]; lia.
+  - cbn [forest_stmt skel_forest flat_map]. rewrite skel_call. rewrite app_nil_r. cbn [length].
+    unfold call_tail. destruct (forest_io _ _); cbn [length]; lia.
+  - cbn [forest_stmt skel_forest flat_map]. rewrite skel_tree_node. rewrite app_nil_r. cbn [map app length].
+    destruct (map _ cs); cbn [length]; lia.
+  - rewrite forest_while. cbn [skel_forest flat_map]. rewrite skel_tree_node. cbn [map app length]. lia.
+  - rewrite forest_count. cbn [skel_forest flat_map]. rewrite skel_tree_node. rewrite !app_length.
+    rewrite map_length, app_length. cbn [length]. lia.
+  - rewrite forest_cond. cbn [skel_forest flat_map]. rewrite skel_tree_node. cbn [map app length]. lia.
+Qed.
+
+Lemma forest_stmts_nonempty : forall s0 body, forest_stmts (s0 :: body) <> [].
+Proof.
+  intros s0 body H. destruct (forest_stmt_head s0) as [t [rest [Hh _]]].
+  unfold forest_stmts in H. cbn [flat_map] in H. apply app_eq_nil in H. destruct H as [H _].
+  rewrite H in Hh. discriminate.
+Qed.
+
+Lemma skel_node_stmts : forall lex s0 body,
+  skel_tree (LNode lex (forest_stmts (s0 :: body))) =
+  map DTok lex ++ DIndent :: skel_forest (forest_stmts (s0 :: body)) ++ [DDedent].
+Proof.
+  intros lex s0 body. rewrite skel_tree_node.
+  destruct (forest_stmts (s0 :: body)) eqn:E; [exfalso; exact (forest_stmts_nonempty _ _ E)|reflexivity].
+Qed.
+
+Lemma toks_path_len : forall p, length p <= length (toks_path p).
+Proof.
+  unfold toks_path. induction p as [|e p IH]; [cbn; lia|]. cbn [flat_map length]. rewrite app_length.
+  destruct e; cbn [toks_pelem length]; lia.
+Qed.
+
+Section Statements.
+  Variable T : level_table.
+  Variable nlv : nat.
+
+  (* the round trip of expressions, proved separately (Front/ExprParseProofs.v) *)
+  Variable expr_rt : forall e f r,
+    expr_ok T nlv e = true -> layout_head r -> length (toks_expr e) < f ->
+    parse_expr T nlv (expr_fuel f) 0 (map DTok (toks_expr e) ++ r) = FOk (e, r).
+
+  Notation pstmt := (parse_stmt T nlv).
+  Notation pstmts := (parse_stmts T nlv).
+  Notation pblock := (parse_block T nlv).
+  Notation sok := (stmt_ok T nlv).
+
+  (* unfolding equations of the mutually recursive parser functions *)
+  Lemma parse_stmts_S : forall f ts,
+    pstmts (S f) ts =
+    (do '(s, r) <- pstmt f ts ;;
+     if starts_stmt r then do '(ss, r1) <- pstmts f r ;; FOk (s :: ss, r1) else FOk ([s], r)).
+  Proof. reflexivity. Qed.
+
+  Lemma parse_block_S : forall f ts,
+    pblock (S f) ts =
+    (do r <- expect_indent ts ;; do '(ss, r1) <- pstmts f r ;; do r2 <- expect_dedent r1 ;; FOk (ss, r2)).
+  Proof. reflexivity. Qed.
+
+  Lemma parse_stmt_service : forall f n r,
+    pstmt (S f) (DTok (TUpper n) :: r) =
+    (do '((ins, outs), r1) <- parse_call_rest f r ;; FOk (SService n ins outs, r1)).
+  Proof. reflexivity. Qed.
+
+  Lemma parse_stmt_call : forall f n r,
+    pstmt (S f) (DTok (TLower n) :: r) =
+    (do '((ins, outs), r1) <- parse_call_rest f r ;;
+     FOk (SCall {| c_name := n; c_ins := ins; c_outs := outs |}, r1)).
+  Proof. reflexivity. Qed.
+
+  Lemma parse_stmt_parallel : forall f r,
+    pstmt (S f) (DTok KParallel :: DIndent :: r) =
+    (do '(cs, r2) <- parse_task_calls f r ;; do r3 <- expect_dedent r2 ;; FOk (SParallel cs, r3)).
+  Proof. reflexivity. Qed.
+
+  Lemma parse_stmt_while : forall f r,
+    pstmt (S f) (DTok KLoop :: DTok KWhile :: r) =
+    (do '(e, r1) <- parse_expr T nlv (expr_fuel f) 0 r ;;
+     do e' <- top_expr e ;;
+     do '(body, r2) <- pblock f r1 ;; FOk (SWhile e' body, r2)).
+  Proof. reflexivity. Qed.
+
+  Lemma parse_stmt_parloop : forall f r,
+    pstmt (S f) (DTok KParallel :: DTok KLoop :: r) = parse_counting T nlv f true r.
+  Proof. reflexivity. Qed.
+
+  Lemma parse_stmt_loop : forall f v r,
+    pstmt (S f) (DTok KLoop :: DTok (TLower v) :: r) = parse_counting T nlv f false (DTok (TLower v) :: r).
+  Proof. reflexivity. Qed.
+
+  Lemma parse_counting_int : forall f par v n r,
+    parse_counting T nlv (S f) par (DTok (TLower v) :: DTok KTo :: DTok (TInt n) :: r) =
+    (do '(body, r1) <- pblock f r ;; FOk (SCount par v (LimInt n) body, r1)).
+  Proof. reflexivity. Qed.
+
+  Lemma parse_counting_path : forall f par v x r,
+    parse_counting T nlv (S f) par (DTok (TLower v) :: DTok KTo :: DTok (TLower x) :: r) =
+    (do '(p, r1) <- parse_path_rest f r ;;
+     do '(body, r2) <- pblock f r1 ;; FOk (SCount par v (LimPath x p) body, r2)).
+  Proof. reflexivity. Qed.
+
+  Lemma parse_stmt_cond : forall f r,
+    pstmt (S f) (DTok KCondition :: r) =
+    (do r1 <- expect_indent r ;;
+     do '(e, r2) <- parse_expr T nlv (expr_fuel f) 0 r1 ;;
+     do e' <- top_expr e ;;
+     do r3 <- nl_plus r2 ;;
+     do r4 <- expect_dedent r3 ;;
+     match r4 with
+     | DTok KPassed :: r5 =>
+       do '(passed, r6) <- pblock f r5 ;;
+       match r6 with
+       | DTok KFailed :: r7 =>
+         do '(failed, r8) <- pblock f r7 ;; FOk (SCond e' passed failed, r8)
+       | _ => FOk (SCond e' passed [], r6)
+       end
+     | _ => FSyntax
+     end).
+  Proof. reflexivity. Qed.
+
+  Definition stmt_rt (s : stmt) : Prop :=
+    forall f r, sok s = true -> stmt_follow r ->
+                length (skel_forest (forest_stmt s)) <= f ->
+                pstmt f (skel_forest (forest_stmt s) ++ r) = FOk (s, r).
+
+  Lemma parse_stmts_rt : forall ss,
+    Forall stmt_rt ss -> ss <> [] -> forallb sok ss = true ->
+    forall f r, starts_stmt r = false -> stmt_follow r ->
+                length (skel_forest (forest_stmts ss)) + 1 <= f ->
+                pstmts f (skel_forest (forest_stmts ss) ++ r) = FOk (ss, r).
+  Proof.
+    induction ss as [|s ss IH]; intros HP Hne Hok f r Hst Hfo Hf; [congruence|].
+    inversion HP as [|? ? Hs Hss]; subst.
+    cbn [forallb] in Hok. apply andb_prop in Hok. destruct Hok as [Hsok Hssok].
+    destruct f as [|f]; [lia|].
+    unfold forest_stmts in *. cbn [flat_map] in *. rewrite skel_forest_app in Hf |- *.
+    rewrite app_length in Hf. rewrite <- app_assoc. rewrite parse_stmts_S.
+    pose proof (forest_stmt_len s) as Hlen.
+    destruct ss as [|s2 ss].
+    - cbn [flat_map skel_forest app] in *. rewrite (Hs f r Hsok Hfo) by lia.
+      cbn [fbind]. rewrite Hst. reflexivity.
+    - fold (forest_stmts (s2 :: ss)) in *.
+      rewrite (Hs f _ Hsok (stmts_follow s2 ss r)) by lia.
+      cbn [fbind]. rewrite stmts_starts.
+      rewrite (IH Hss ltac:(congruence) Hssok f r Hst Hfo) by lia.
+      reflexivity.
+  Qed.
+
+  Lemma parse_block_rt : forall ss,
+    Forall stmt_rt ss -> ss <> [] -> forallb sok ss = true ->
+    forall f r, length (skel_forest (forest_stmts ss)) + 2 <= f ->
+                pblock f (DIndent :: skel_forest (forest_stmts ss) ++ DDedent :: r) = FOk (ss, r).
+  Proof.
+    intros ss HP Hne Hok f r Hf. destruct f as [|f]; [lia|].
+    rewrite parse_block_S. cbn [expect_indent fbind].
+    rewrite (parse_stmts_rt ss HP Hne Hok f (DDedent :: r)) by (try reflexivity; try exact I; lia).
+    reflexivity.
+  Qed.
+
+  (* task_call+ *)
+  Definition d_calls (cs : list call) : toks :=
+    skel_forest (map (fun c => forest_call (TLower (c_name c)) (c_ins c) (c_outs c)) cs).
+
+  Lemma call_tail_len : forall ins outs, 1 <= length (call_tail ins outs).
+  Proof. intros. unfold call_tail. destruct (forest_io ins outs); cbn [length]; lia. Qed.
+
+  Lemma d_calls_head : forall c cs r,
+    d_calls (c :: cs) ++ r = DTok (TLower (c_name c)) :: (call_tail (c_ins c) (c_outs c) ++ d_calls cs) ++ r.
+  Proof. intros. unfold d_calls. cbn [map]. rewrite skel_forest_cons, skel_call. reflexivity. Qed.
+
+  Lemma parse_task_calls_rt : forall cs f r,
+    cs <> [] -> forallb call_ok cs = true -> length (d_calls cs) + 1 <= f ->
+    parse_task_calls f (d_calls cs ++ DDedent :: r) = FOk (cs, DDedent :: r).
+  Proof.
+    induction cs as [|c cs IH]; intros f r Hne Hok Hf; [congruence|].
+    cbn [forallb] in Hok. apply andb_prop in Hok. destruct Hok as [Hc Hcs].
+    unfold call_ok in Hc. apply andb_prop in Hc. destruct Hc as [Hins _].
+    destruct f as [|f]; [lia|].
+    assert (Hlen : length (d_calls (c :: cs)) = S (length (call_tail (c_ins c) (c_outs c)) + length (d_calls cs))).
+    { pose proof (d_calls_head c cs []) as E. rewrite !app_nil_r in E. rewrite E. cbn [length].
+      rewrite app_length. reflexivity. }
+    rewrite Hlen in Hf.
+    rewrite d_calls_head. rewrite <- app_assoc. cbn [parse_task_calls].
+    pose proof (call_tail_len (c_ins c) (c_outs c)).
+    destruct cs as [|c2 cs].
+    - cbn [d_calls map skel_forest flat_map app length] in *.
+      rewrite parse_call_rest_rt by (auto; try exact I; lia).
+      cbn [fbind starts_lower]. destruct c; reflexivity.
+    - rewrite parse_call_rest_rt; [|exact Hins|rewrite d_calls_head; exact I|lia].
+      cbn [fbind]. rewrite (d_calls_head c2 cs). cbn [starts_lower]. rewrite <- (d_calls_head c2 cs).
+      rewrite (IH f r); [destruct c; reflexivity|congruence|exact Hcs|lia].
+  Qed.
+
+  Lemma forallb_sok : forall body,
+    (fix all (l : list stmt) : bool := match l with [] => true | x :: r => sok x && all r end) body
+    = forallb sok body.
+  Proof. reflexivity. Qed.
+
+  Lemma limit_len : forall lim, 1 <= length (toks_limit lim).
+  Proof. intros [n|v p]; cbn [toks_limit length]; lia. Qed.
+
+  Theorem stmt_roundtrip : forall s, stmt_rt s.
+  Proof.
+    induction s as [n ins outs|c|cs|e body IH|par v lim body IH|e a b IHa IHb] using stmt_ind';
+      intros f r Hok Hfo Hf;
+      (destruct f as [|f];
+       [match type of Hf with length (skel_forest (forest_stmt ?s)) <= _ => pose proof (forest_stmt_len s) as Hl end; lia|]).
+    - (* service *)
+      cbn [forest_stmt skel_forest flat_map] in *. rewrite app_nil_r in *. rewrite skel_call in *.
+      cbn [length] in Hf. cbn [stmt_ok] in Hok. apply andb_prop in Hok. destruct Hok as [Hins _].
+      cbn [app]. rewrite parse_stmt_service.
+      rewrite parse_call_rest_rt; [reflexivity|exact Hins|exact (stmt_follow_no_nl _ Hfo)|lia].
+    - (* task call *)
+      cbn [forest_stmt skel_forest flat_map] in *. rewrite app_nil_r in *. rewrite skel_call in *.
+      cbn [length] in Hf. cbn [stmt_ok] in Hok. unfold call_ok in Hok. apply andb_prop in Hok. destruct Hok as [Hins _].
+      cbn [app]. rewrite parse_stmt_call.
+      rewrite parse_call_rest_rt; [destruct c; reflexivity|exact Hins|exact (stmt_follow_no_nl _ Hfo)|lia].
+    - (* parallel *)
+      cbn [forest_stmt skel_forest flat_map] in *. rewrite app_nil_r in *. rewrite skel_tree_node in *.
+      cbn [stmt_ok] in Hok. destruct cs as [|c cs]; [discriminate|].
+      fold (d_calls (c :: cs)) in *.
+      assert (Hm : forall X Y : toks, match map (fun c0 => forest_call (TLower (c_name c0)) (c_ins c0) (c_outs c0)) (c :: cs) with
+                              | [] => X | _ :: _ => Y end = Y) by reflexivity.
+      rewrite Hm in *. cbn [map app length] in Hf. rewrite app_length in Hf. cbn [length] in Hf.
+      cbn [map app]. rewrite <- app_assoc. cbn [app]. rewrite parse_stmt_parallel.
+      rewrite parse_task_calls_rt; [reflexivity|congruence|exact Hok|lia].
+    - (* while *)
+      rewrite forest_while in *. cbn [skel_forest flat_map] in *. rewrite app_nil_r in *.
+      cbn [stmt_ok] in Hok. rewrite forallb_sok in Hok.
+      apply andb_prop in Hok. destruct Hok as [Hok Hbody]. apply andb_prop in Hok. destruct Hok as [He Hne].
+      destruct body as [|s0 body]; [discriminate|].
+      rewrite skel_node_stmts in *.
+      rewrite app_length, map_length in Hf. cbn [length] in Hf. rewrite app_length in Hf. cbn [length] in Hf.
+      cbn [map]. norm_app. rewrite parse_stmt_while.
+      rewrite (expr_rt e f) by (try exact He; try exact I; lia).
+      cbn [fbind]. assert (Htop : top_expr e = FOk e) by (destruct e; try reflexivity; discriminate).
+      rewrite Htop. cbn [fbind].
+      rewrite (parse_block_rt (s0 :: body) IH ltac:(congruence) Hbody f r) by lia.
+      reflexivity.
+    - (* counting loop *)
+      rewrite forest_count in *. cbn [skel_forest flat_map] in *. rewrite app_nil_r in *.
+      cbn [stmt_ok] in Hok. rewrite forallb_sok in Hok.
+      apply andb_prop in Hok. destruct Hok as [Hok Hbody]. apply andb_prop in Hok. destruct Hok as [Hlim Hne].
+      destruct body as [|s0 body]; [discriminate|].
+      rewrite skel_node_stmts in *.
+      rewrite app_length, map_length, app_length in Hf. cbn [length] in Hf. rewrite app_length in Hf. cbn [length] in Hf.
+      destruct par; destruct lim as [n|x p]; cbn [toks_limit app map length] in *; norm_app;
+        rewrite ?parse_stmt_parloop, ?parse_stmt_loop; (destruct f as [|f]; [lia|]).
+      + rewrite parse_counting_int.
+        rewrite (parse_block_rt (s0 :: body) IH ltac:(congruence) Hbody f r) by lia. reflexivity.
+      + rewrite parse_counting_path. cbn [limit_ok] in Hlim. pose proof (toks_path_len p).
+        rewrite parse_path_rest_rt; [|exact Hlim|split; reflexivity|lia].
+        cbn [fbind app].
+        rewrite (parse_block_rt (s0 :: body) IH ltac:(congruence) Hbody f r) by lia. reflexivity.
+      + rewrite parse_counting_int.
+        rewrite (parse_block_rt (s0 :: body) IH ltac:(congruence) Hbody f r) by lia. reflexivity.
+      + rewrite parse_counting_path. cbn [limit_ok] in Hlim. pose proof (toks_path_len p).
+        rewrite parse_path_rest_rt; [|exact Hlim|split; reflexivity|lia].
+        cbn [fbind app].
+        rewrite (parse_block_rt (s0 :: body) IH ltac:(congruence) Hbody f r) by lia. reflexivity.
+    - (* condition *)
+      rewrite forest_cond in *.
+      cbn [stmt_ok] in Hok. rewrite !forallb_sok in Hok.
+      apply andb_prop in Hok. destruct Hok as [Hok Hbok]. apply andb_prop in Hok. destruct Hok as [Hok Haok].
+      apply andb_prop in Hok. destruct Hok as [He Hne].
+      destruct a as [|s0 a]; [discriminate|].
+      assert (Htop : top_expr e = FOk e) by (destruct e; try reflexivity; discriminate).
+      rewrite !skel_forest_cons in *. rewrite skel_node_stmts in *.
+      rewrite (skel_tree_node [KCondition]) in *. cbn [skel_forest flat_map] in *. rewrite skel_leaf in *.
+      rewrite !app_length in Hf. cbn [map length] in Hf. rewrite !app_length in Hf. rewrite map_length in Hf.
+      cbn [length] in Hf.
+      cbn [map]. norm_app. rewrite parse_stmt_cond.
+      cbn [expect_indent fbind].
+      rewrite (expr_rt e f) by (try exact He; try exact I; lia).
+      cbn [fbind]. rewrite Htop. cbn [fbind]. rewrite nl_plus_one by exact I. cbn [fbind expect_dedent].
+      rewrite (parse_block_rt (s0 :: a) IHa ltac:(congruence) Haok f) by lia.
+      cbn [fbind].
+      destruct b as [|s1 b].
+      + cbn [skel_forest flat_map app].
+        destruct r as [|[t| | | |] r]; try reflexivity; try contradiction.
+        destruct t; try reflexivity. contradiction.
+      + cbn [skel_forest flat_map] in *. rewrite skel_node_stmts in *. rewrite app_nil_r in *.
+        rewrite !app_length in Hf. cbn [map length] in Hf. rewrite !app_length in Hf. cbn [length] in Hf.
+        cbn [map]. norm_app.
+        rewrite (parse_block_rt (s1 :: b) IHb ltac:(congruence) Hbok f) by lia.
+        reflexivity.
+  Qed.
+End Statements.
+
+(* ---- struct, task, program ---- *)
+Lemma parse_struct_rt : forall s f r,
+  s_attrs s <> [] -> length (s_attrs s) <= f ->
+  parse_struct f (skel_forest (forest_struct s) ++ r) = FOk (s, DNL :: r).
+Proof.
+  intros [n attrs] f r Hne Hf. cbn [s_attrs s_name] in *.
+  unfold forest_struct. cbn [s_attrs s_name skel_forest flat_map]. rewrite skel_tree_node, skel_leaf.
+  destruct attrs as [|d attrs]; [congruence|].
+  assert (Hm : forall X Y : toks, match map (fun d0 => leaf (toks_vardef d0)) (d :: attrs) with
+                                  | [] => X | _ :: _ => Y end = Y) by reflexivity.
+  rewrite Hm. rewrite skel_forest_vardefs. cbn [map]. norm_app. cbn [parse_struct].
+  rewrite parse_vardef_block_rt; [reflexivity|congruence|exact Hf].
+Qed.
+
+Definition d_names (ns : list name) : toks := flat_map (fun n => [DTok (TLower n); DNL]) ns.
+
+Lemma parse_names_rt : forall ns f r,
+  ns <> [] -> length ns <= f ->
+  parse_names f (d_names ns ++ DDedent :: r) = FOk (ns, DDedent :: r).
+Proof.
+  induction ns as [|n ns IH]; intros f r Hne Hf; [congruence|].
+  destruct f as [|f]; [cbn in Hf; lia|].
+  unfold d_names in *. cbn [flat_map app parse_names].
+  destruct ns as [|n2 ns].
+  - cbn [flat_map app]. rewrite nl_plus_one by exact I. reflexivity.
+  - rewrite nl_plus_one by exact I. cbn [fbind]. cbn [flat_map app starts_lower].
+    change (DTok (TLower n2) :: DNL :: flat_map (fun n0 => [DTok (TLower n0); DNL]) ns ++ DDedent :: r)
+      with (flat_map (fun n0 => [DTok (TLower n0); DNL]) (n2 :: ns) ++ DDedent :: r).
+    rewrite IH; [reflexivity|congruence|cbn [length] in Hf |- *; lia].
+Qed.
+
+Lemma skel_names : forall ns, skel_forest (map (fun n => leaf [TLower n]) ns) = d_names ns.
+Proof.
+  induction ns as [|n ns IH]; [reflexivity|].
+  cbn [map]. rewrite skel_forest_cons, skel_leaf, IH. reflexivity.
+Qed.
+
+Definition d_task_in (ins : list (name * vtype)) : toks :=
+  match ins with [] => [] | _ => DTok KIn :: DIndent :: d_vardefs ins ++ [DDedent] end.
+
+Definition d_task_out (outs : list name) : toks :=
+  match outs with [] => [] | _ => DTok KOut :: DIndent :: d_names outs ++ [DDedent] end.
+
+Lemma skel_task : forall n ins s0 body outs,
+  skel_forest (forest_task {| t_name := n; t_ins := ins; t_body := s0 :: body; t_outs := outs |}) =
+  DTok KTask :: DTok (TLower n) :: DIndent ::
+    d_task_in ins ++ skel_forest (forest_stmts (s0 :: body)) ++ d_task_out outs
+    ++ [DDedent; DTok KEnd; DNL].
+Proof.
+  intros n ins s0 body outs. unfold forest_task. cbn [t_name t_ins t_body t_outs skel_forest flat_map].
+  rewrite skel_leaf, app_nil_r. rewrite skel_tree_node.
+  set (kin := match ins with [] => [] | _ => [LNode [KIn] (map (fun d => leaf (toks_vardef d)) ins)] end).
+  set (kout := match outs with [] => [] | _ => [LNode [KOut] (map (fun n0 => leaf [TLower n0]) outs)] end).
+  assert (Hin : skel_forest kin = d_task_in ins).
+  { unfold kin, d_task_in. destruct ins as [|d ins]; [reflexivity|].
+    cbn [skel_forest flat_map]. rewrite app_nil_r, skel_tree_node. rewrite skel_forest_vardefs. reflexivity. }
+  assert (Hout : skel_forest kout = d_task_out outs).
+  { unfold kout, d_task_out. destruct outs as [|o outs]; [reflexivity|].
+    cbn [skel_forest flat_map]. rewrite app_nil_r, skel_tree_node. rewrite skel_names. reflexivity. }
+  destruct (kin ++ forest_stmts (s0 :: body) ++ kout) as [|k0 k] eqn:E.
+  - exfalso. apply app_eq_nil in E. destruct E as [_ E]. apply app_eq_nil in E. destruct E as [E _].
+    exact (forest_stmts_nonempty _ _ E).
+  - rewrite <- E. rewrite !skel_forest_app, Hin, Hout. cbn [map]. norm_app. reflexivity.
+Qed.
+
+Lemma d_names_length : forall ns, length ns <= length (d_names ns).
+Proof. induction ns as [|n ns IH]; [cbn; lia|]. unfold d_names in *. cbn [flat_map app length] in *. lia. Qed.
+
+Lemma parse_task_in_rt : forall ins f t rest,
+  match t with KLoop | KParallel | KCondition | TLower _ | TUpper _ => True | _ => False end ->
+  length ins <= f ->
+  parse_task_in f (d_task_in ins ++ DTok t :: rest) = FOk (ins, DTok t :: rest).
+Proof.
+  intros ins f t rest Ht Hf. destruct ins as [|d ins].
+  - cbn [d_task_in app]. destruct t; try contradiction; reflexivity.
+  - cbn [d_task_in]. norm_app. cbn [parse_task_in].
+    apply parse_vardef_block_rt; [congruence|exact Hf].
+Qed.
+
+Lemma parse_task_out_rt : forall outs f r,
+  length outs <= f ->
+  parse_task_out f (d_task_out outs ++ DDedent :: r) = FOk (outs, DDedent :: r).
+Proof.
+  intros outs f r Hf. destruct outs as [|o outs]; [reflexivity|].
+  cbn [d_task_out]. norm_app. cbn [parse_task_out expect_indent fbind].
+  rewrite parse_names_rt; [reflexivity|congruence|exact Hf].
+Qed.
+
+Section Programs.
+  Variable T : level_table.
+  Variable nlv : nat.
+  Variable expr_rt : forall e f r,
+    expr_ok T nlv e = true -> layout_head r -> length (toks_expr e) < f ->
+    parse_expr T nlv (expr_fuel f) 0 (map DTok (toks_expr e) ++ r) = FOk (e, r).
+
+  Lemma parse_task_rt : forall t f r,
+    task_ok T nlv t = true -> length (skel_forest (forest_task t)) <= f ->
+    parse_task T nlv f (skel_forest (forest_task t) ++ r) = FOk (t, DNL :: r).
+  Proof.
+    intros [n ins body outs] f r Hok Hf. unfold task_ok in Hok. cbn [t_ins t_body t_name t_outs] in *.
+    apply andb_prop in Hok. destruct Hok as [_ Hbody].
+    destruct body as [|s0 body]; [discriminate|].
+    rewrite skel_task in *. cbn [length] in Hf. rewrite !app_length in Hf. cbn [length] in Hf.
+    norm_app. cbn [parse_task expect_indent fbind].
+    assert (Hst : Forall (stmt_rt T nlv) (s0 :: body)).
+    { apply Forall_forall. intros s _. apply stmt_roundtrip. exact expr_rt. }
+    destruct (stmts_head s0 body (d_task_out outs ++ DDedent :: DTok KEnd :: DNL :: r)) as [t0 [rest0 [Hh Ht0]]].
+    rewrite Hh.
+    assert (Hil : length ins <= f).
+    { destruct ins as [|d ins]; [cbn; lia|]. pose proof (d_vardefs_length (d :: ins)).
+      cbn [d_task_in length] in Hf. rewrite app_length in Hf. cbn [length] in Hf. lia. }
+    rewrite (parse_task_in_rt ins f t0 rest0 Ht0 Hil). cbn [fbind]. rewrite <- Hh.
+    rewrite (parse_stmts_rt T nlv (s0 :: body) Hst ltac:(congruence) Hbody f).
+    - cbn [fbind].
+      assert (Hol : length outs <= f).
+      { destruct outs as [|o outs]; [cbn; lia|]. pose proof (d_names_length (o :: outs)).
+        cbn [d_task_out length] in Hf. rewrite app_length in Hf. cbn [length] in Hf. lia. }
+      rewrite (parse_task_out_rt outs f _ Hol). reflexivity.
+    - destruct outs; reflexivity.
+    - destruct outs; exact I.
+    - lia.
+  Qed.
+End Programs.
+
+Section ProgramRT.
+  Variable T : level_table.
+  Variable nlv : nat.
+  Variable expr_rt : forall e f r,
+    expr_ok T nlv e = true -> layout_head r -> length (toks_expr e) < f ->
+    parse_expr T nlv (expr_fuel f) 0 (map DTok (toks_expr e) ++ r) = FOk (e, r).
+
+  Notation pprog := (parse_program T nlv).
+
+  Lemma parse_program_eof : forall f, pprog (S f) [DEOF] = FOk {| p_structs := []; p_tasks := [] |}.
+  Proof. reflexivity. Qed.
+
+  Lemma parse_program_nl : forall f r, pprog (S f) (DNL :: r) = pprog f r.
+  Proof. reflexivity. Qed.
+
+  Lemma parse_program_struct : forall f r,
+    pprog (S f) (DTok KStruct :: r) =
+    (do '(s, r') <- parse_struct f (DTok KStruct :: r) ;;
+     do p <- pprog f r' ;;
+     FOk {| p_structs := s :: p_structs p; p_tasks := p_tasks p |}).
+  Proof. reflexivity. Qed.
+
+  Lemma parse_program_task : forall f r,
+    pprog (S f) (DTok KTask :: r) =
+    (do '(t, r') <- parse_task T nlv f (DTok KTask :: r) ;;
+     do p <- pprog f r' ;;
+     FOk {| p_structs := p_structs p; p_tasks := t :: p_tasks p |}).
+  Proof. reflexivity. Qed.
+
+  Lemma struct_len : forall s, length (s_attrs s) + 4 <= length (skel_forest (forest_struct s)).
+  Proof.
+    intros [n attrs]. destruct attrs as [|d attrs]; [vm_compute; lia|].
+    unfold forest_struct. cbn [s_name s_attrs skel_forest flat_map].
+    rewrite skel_leaf, app_nil_r, skel_tree_node.
+    assert (Hm : forall X Y : toks, match map (fun d0 => leaf (toks_vardef d0)) (d :: attrs) with
+                                    | [] => X | _ :: _ => Y end = Y) by reflexivity.
+    rewrite Hm. rewrite skel_forest_vardefs. rewrite !app_length. cbn [map length]. rewrite app_length. cbn [length].
+    pose proof (d_vardefs_length (d :: attrs)). cbn [length] in *. lia.
+  Qed.
+
+  Lemma task_len : forall t, 2 <= length (skel_forest (forest_task t)).
+  Proof.
+    intros [n ins body outs]. unfold forest_task. cbn [skel_forest flat_map].
+    rewrite skel_leaf. rewrite !app_length. cbn [map length]. lia.
+  Qed.
+
+  Lemma skel_struct_head : forall s, exists rest, skel_forest (forest_struct s) = DTok KStruct :: rest.
+  Proof. intros [n attrs]. eexists. reflexivity. Qed.
+
+  Lemma skel_task_head : forall t, exists rest, skel_forest (forest_task t) = DTok KTask :: rest.
+  Proof. intros [n ins body outs]. eexists. reflexivity. Qed.
+
+  Lemma parse_tasks_rt : forall ts f,
+    forallb (task_ok T nlv) ts = true ->
+    length (skel_forest (flat_map forest_task ts)) + length ts + 1 <= f ->
+    pprog f (skel_forest (flat_map forest_task ts) ++ [DEOF]) = FOk {| p_structs := []; p_tasks := ts |}.
+  Proof.
+    induction ts as [|t ts IH]; intros f Hok Hf.
+    - destruct f as [|f]; [cbn in Hf; lia|]. reflexivity.
+    - cbn [forallb] in Hok. apply andb_prop in Hok. destruct Hok as [Ht Hts].
+      cbn [flat_map] in *. rewrite skel_forest_app in *. rewrite app_length in Hf. cbn [length] in Hf.
+      destruct f as [|f]; [lia|].
+      destruct (skel_task_head t) as [rest Hrest].
+      rewrite <- app_assoc. rewrite Hrest. cbn [app]. rewrite parse_program_task.
+      change (DTok KTask :: rest ++ skel_forest (flat_map forest_task ts) ++ [DEOF])
+        with ((DTok KTask :: rest) ++ skel_forest (flat_map forest_task ts) ++ [DEOF]).
+      rewrite <- Hrest.
+      rewrite (parse_task_rt T nlv expr_rt t f _ Ht) by lia.
+      cbn [fbind].
+      pose proof (task_len t) as Hl.
+      destruct f as [|f]; [lia|]. rewrite parse_program_nl.
+      rewrite (IH f Hts) by lia. reflexivity.
+  Qed.
+
+  Lemma parse_program_rt : forall ss ts f,
+    forallb struct_ok ss = true -> forallb (task_ok T nlv) ts = true ->
+    length (skel_forest (flat_map forest_struct ss ++ flat_map forest_task ts)) + length ss + length ts + 1 <= f ->
+    pprog f (skel_forest (flat_map forest_struct ss ++ flat_map forest_task ts) ++ [DEOF])
+    = FOk {| p_structs := ss; p_tasks := ts |}.
+  Proof.
+    induction ss as [|s ss IH]; intros ts f Hss Hts Hf.
+    - cbn [flat_map app length] in *. apply parse_tasks_rt; [exact Hts|lia].
+    - cbn [forallb] in Hss. apply andb_prop in Hss. destruct Hss as [Hs Hss].
+      cbn [flat_map] in *. rewrite <- app_assoc in *. rewrite skel_forest_app in *.
+      rewrite app_length in Hf. cbn [length] in Hf.
+      destruct f as [|f]; [lia|].
+      destruct (skel_struct_head s) as [rest Hrest].
+      rewrite <- app_assoc. rewrite Hrest. cbn [app]. rewrite parse_program_struct.
+      change (DTok KStruct :: rest ++ skel_forest (flat_map forest_struct ss ++ flat_map forest_task ts) ++ [DEOF])
+        with ((DTok KStruct :: rest) ++ skel_forest (flat_map forest_struct ss ++ flat_map forest_task ts) ++ [DEOF]).
+      rewrite <- Hrest.
+      pose proof (struct_len s) as Hsl.
+      unfold struct_ok in Hs.
+      rewrite parse_struct_rt; [|destruct (s_attrs s); [discriminate|congruence]|lia].
+      cbn [fbind].
+      destruct f as [|f]; [lia|]. rewrite parse_program_nl.
+      rewrite (IH ts f Hss Hts) by lia. reflexivity.
+  Qed.
+End ProgramRT.
